@@ -254,9 +254,14 @@ func (s *fnStash) clone(c *cloner) stasher {
 	for name, value := range s.indexOfArgumentName {
 		index[name] = value
 	}
+	var arguments *object
+	if s.arguments != nil {
+		// There is no arguments object when a parameter is named "arguments".
+		arguments = c.object(s.arguments)
+	}
 	*out = fnStash{
 		dclStash:            *dclStash,
-		arguments:           c.object(s.arguments),
+		arguments:           arguments,
 		indexOfArgumentName: index,
 	}
 	return out
